@@ -244,6 +244,9 @@ fn gen_chain(rng: &mut StdRng, abs: &mut Abs, cfg: &Cfg, e: &mut Emit, boost: u6
         let tc_first = blocks[i].tc.is_some() && rng.gen_bool(0.35);
         if tc_first { e.stat("tc_before_proposal", 1); evs.push(Ev::TC(blocks[i].tc.clone().unwrap())); }
         evs.push(Ev::Propose(blocks[i].clone()));
+        // the same proposal delivered again (duplicate broadcast, several peers answering a sync request), also while its payload is
+        // still missing: it must be parked again, not processed
+        if rng.gen_bool(if late.is_empty() { 0.08 } else { 0.3 }) { e.stat(if late.is_empty() { "duplicate_proposal" } else { "duplicate_proposal_while_payload_missing" }, 1); if rng.gen_bool(0.3) { evs.push(Ev::Loop); } evs.push(Ev::Propose(blocks[i].clone())); }
         if !late.is_empty() {
             e.stat("payload_late", 1); late.shuffle(rng);
             for k in late { if rng.gen_bool(0.3) { evs.push(Ev::Loop); } evs.push(Ev::Batch(k)); have.push(k); }
@@ -503,6 +506,21 @@ async fn run_case(seed: u64, case: usize, script: Option<&str>, dbroot: &str, e:
     };
 
     network::verif::tap_start();
+    // up to f stake of the OTHER members is silent in a third of the cases: reliable messages to them (the proposer's broadcast of the
+    // node's own blocks) are never acknowledged. The remaining members plus the node itself still hold a quorum, so nothing may block.
+    {
+        let mut srng = case_rng(seed, 31, case as u64);
+        if srng.gen_bool(0.34) {
+            let total: u32 = stakes.iter().sum(); let mut budget = total - com.quorum_threshold();
+            let mut others: Vec<usize> = (0..n).filter(|&i| i != me).collect(); others.shuffle(&mut srng);
+            let mut silent = vec![];
+            for i in others { if stakes[i] > 0 && stakes[i] <= budget { budget -= stakes[i]; silent.push(i); } }
+            if !silent.is_empty() {
+                e.stat("cases with up to f silent members (never acknowledge the proposer's broadcast)", 1);
+                network::verif::tap_silence(silent.iter().map(|&i| format!("127.0.0.1:{}", 9000 + i).parse().unwrap()).collect());
+            }
+        }
+    }
     let path = format!("{}/db_step_{}_{}", dbroot, seed, case);
     let _ = std::fs::remove_dir_all(&path);
     let mut store = Store::new(&path).unwrap();
@@ -651,7 +669,7 @@ fn main() {
     let workers: Vec<std::thread::JoinHandle<Emit>> = (0..shards).map(|sh| {
         let list = list.clone(); let dbroot = dbroot.clone(); let seen = seen.clone();
         std::thread::Builder::new().stack_size(64 << 20).spawn(move || {
-            let mut emit = Emit::new("GTac Node Corr Monitors MonitorsC19");
+            let mut emit = Emit::new("GTac Node Corr Monitors MonitorsC19 MonitorsC06");
             for (k, script) in list {
                 if k % shards != sh { continue; }
                 if let Some(only) = only { if only != k { continue; } }
@@ -666,7 +684,7 @@ fn main() {
                 if out.nontrivial && seen.lock().unwrap().insert(out.evs.join(";")) { e.stat("distinct_nontrivial", 1); }
                 if ADMISSIBLE.with(|c| c.get()) { e.stat("admissible (within the fault model)", 1); }
                 let c06 = CLEAN_LEADER.with(|c| c.get());
-                let c19c = "[b2n (mon_c19_complete cmt evs obs); b2n (mon_c19_tc_complete cmt evs obs); c19_complete_fired cmt evs obs + c19_tc_complete_fired cmt evs obs]";
+                let c19c = "[b2n (mon_c19_complete cmt evs obs); b2n (mon_c19_tc_complete cmt evs obs); c19_complete_fired cmt evs obs + c19_tc_complete_fired cmt evs obs; b2n (mon_c06_proposes obs); c06_proposes_fired obs]";
                 let verdict = match c06 { Some(r) => format!("step_verdict cmt {} evs obs ++ [b2n (mon_c06_make obs {})] ++ {}", cfg.me, r, c19c), None => format!("step_verdict cmt {} evs obs ++ [1] ++ {}", cfg.me, c19c) };
                 e.case(k, &defs, &verdict, json!({"case": k, "script": script, "committee_stakes": cfg.stakes, "me": cfg.me, "admissible": ADMISSIBLE.with(|c| c.get()), "events": out.human, "messages_hex": out.hexmsgs}));
             }
